@@ -17,6 +17,7 @@ var ghostGroups = map[string][]string{
 }
 
 var ghostSorts = map[string]string{
+	"$it.next": "Int", "$it.stopped": "Bool",
 	"$fsw.n": "Int", "$fsw.path": "(Array Int String)", "$fsw.data": "(Array Int Slice)",
 	"$out.n": "Int", "$out.data": "(Array Int String)",
 	"$warn.n": "Int", "$warn.text": "(Array Int String)",
@@ -377,6 +378,22 @@ func (fr *Frame) call(ci ssa.CallInstruction, c *ssa.CallCommon) []*Term {
 			w.libUsed[key+" (built-in model)"] = true
 			return m.fn(fr, ci, c)
 		}
+		if fc := w.P.Contracts[key]; fc != nil && fc.Iterates != nil && !c.IsInvoke() {
+			// iterator with a known function literal: expand into a loop over the callback
+			cbIdx := -1
+			for i, pn := range fc.Params {
+				if pn == fc.Iterates.Param {
+					cbIdx = i
+				}
+			}
+			if cbIdx >= 0 && cbIdx < len(c.Args) {
+				if cr := fr.closureOf(c.Args[cbIdx]); cr != nil {
+					fc.Used = true
+					fr.expandIterator(fc, key, ci, c, cbIdx, cr)
+					return nil
+				}
+			}
+		}
 		if fc := w.P.Contracts[key]; fc != nil && !fc.Inline {
 			fc.Used = true
 			var args []*Term
@@ -435,6 +452,16 @@ func (fr *Frame) call(ci ssa.CallInstruction, c *ssa.CallCommon) []*Term {
 	if callee != nil && callee.Blocks != nil {
 		if mc, ok := c.Value.(*ssa.MakeClosure); ok {
 			return fr.inline(callee, mc, fr, c.Args, ci)
+		}
+	}
+	// the callback parameter of an iterator function under verification
+	if !c.IsInvoke() && callee == nil {
+		if p, pf := fr.originParam(c.Value); p != nil && pf.fc != nil && pf.fc.Iterates != nil && pf.parent == nil {
+			for i, pp := range pf.fn.Params {
+				if pp == p && i < len(pf.fc.Params) && pf.fc.Params[i] == pf.fc.Iterates.Param {
+					return fr.protocolCall(pf, ci, c, resTypes)
+				}
+			}
 		}
 	}
 	// function values with a declared behaviour (results of contracted calls, parameters)
@@ -506,8 +533,10 @@ func (fr *Frame) uncontracted(ci ssa.CallInstruction, c *ssa.CallCommon, key str
 		}
 		fr.val(a)
 	}
+	beforeHavoc := fr.cur.clone()
 	fr.cur.havocAll()
 	fr.assumeGlobals(fr.cur)
+	fr.keepPrivate(beforeHavoc, fr.cur)
 	var res []*Term
 	for i, t := range resTypes {
 		r := enc.declare(fmt.Sprintf("r%d_%s", i, ci.(ssa.Value).Name()), w.sortOf(t))
@@ -1008,7 +1037,17 @@ func (fr *Frame) atCallChecks(ci ssa.CallInstruction, c *ssa.CallCommon) {
 		// the loop this call sits in (for name resolution of loop-carried variables)
 		var li *loopInfo
 		for _, l := range fr.loops {
-			if l.body[fr.curBlock.Index] {
+			inside := l.body[fr.curBlock.Index]
+			if !inside {
+				// a block that leaves the loop (return inside the body) is still dominated by a body block
+				for _, bb := range fr.fn.Blocks {
+					if l.body[bb.Index] && bb != l.header && bb.Dominates(fr.curBlock) {
+						inside = true
+						break
+					}
+				}
+			}
+			if inside {
 				if li == nil || len(l.body) < len(li.body) {
 					li = l
 				}
